@@ -258,6 +258,10 @@ package sourcebundle
 //@   at-call Builder.writeManifest C12,C09.close.manifest-path: a1 == Join(old(b.targetDir), "terraform-sources.json") && b.targetDir == ""
 //@   at-call OpenDir C09.close.opens-what-it-wrote: a0 == old(b.targetDir)
 //@   ensures C12.close.no-bundle-on-error: err != nil ==> r == nil
+// bounded stand-in (no memory frame for Close yet: writeManifest and OpenDir have no write-set contracts): the bundle
+// handed out answers metadata queries as the same directory opened again does, for five shapes of fetcher metadata
+//@   replay bundleMeta@C09:
+//@   ensures-bounded bundleMeta C09.close.same-as-reopened: true
 // and the other way round: a Close that reports success hands out the bundle (a failure to reopen what was written is
 // reported, not turned into a nil bundle with a nil error)
 //@   ensures C12.close.bundle-or-error: err == nil ==> r != nil
